@@ -1,0 +1,170 @@
+// SPDX-FileCopyrightText: 2014-2024 caixw
+//
+// SPDX-License-Identifier: MIT
+
+//go:build verif
+
+// Contracts for package syntax, read by the verification tooling under /verif.
+// This file contains comments only and is excluded from normal builds.
+
+package syntax
+
+// segOK: facts every *Segment produced by NewSegment satisfies; Segment fields are written by NewSegment only.
+//@ pred segShape(s *Segment) = s != nil && 0 <= s.Type && s.Type <= 3 && len(s.Value) <= 32767 &&
+//@      (s.Type == 0 ==> s.Name == "" && s.Suffix == "") &&
+//@      (s.Type != 0 ==> (len(s.Name) > 0 || s.ignoreName) && len(s.Value) >= 3 + len(s.Suffix) && s.Value[0] == '{' && hasSuffix(s.Value, s.Suffix))
+//@ pred segMatcher(s *Segment) = ((s.Type == 1 || s.Type == 3) ==> s.matcher != nil && (!s.Endpoint ==> len(s.Suffix) > 0)) &&
+//@      (s.Type == 3 ==> s.matcher == funcval("syntax.Interceptors.NewSegment$1"))
+//
+// The matcher of a named segment is the closure below, proved to accept everything; the axiom lifts that contract
+// to calls through the func value.
+//@ fn Interceptors.NewSegment$1
+//@   nopanic
+//@   ensures [C02] always: result
+//@ axiom forall v string :: pure0("syntax.InterceptorFunc", funcval("syntax.Interceptors.NewSegment$1"), v)
+//@ pred segRegexp(s *Segment) = (s.Type == 2 ==> s.expr != nil && (selfContained(s.rule) ==> s.expr.gtail == s.Suffix))
+//@ pred segOK(s *Segment) = segShape(s) && segMatcher(s) && segRegexp(s)
+//
+// icOK: registered interceptor functions are non-nil (A4 at the API boundary: WithInterceptor / RegisterInterceptor)
+//@ pred icOK(i *Interceptors) = i != nil && i.funcs != nil && (forall k string :: in(k, i.funcs) ==> i.funcs[k] != nil)
+//
+// accepts: the constraint of a parameter segment on a candidate value (named: anything)
+//@ pred accepts(s *Segment, v string) = ((s.Type == 1 || s.Type == 3) ==> pure0("syntax.InterceptorFunc", s.matcher, v)) && (s.Type == 2 ==> reAccepts(s.expr, v))
+// kindOK: the functional clauses about a parameter segment assume (a) A3: a regexp rule is a self-contained
+// expression, (b) the well-formedness the properties quantify over: literal text contains no braces, so a
+// segment that ends in '}' (Endpoint) has no literal suffix.
+//@ pred kindOK(s *Segment) = (s.Type != 2 || selfContained(s.rule)) && (s.Endpoint ==> s.Suffix == "")
+//
+//@ fn MatchAny
+//@   nopanic
+//@   ensures [C02] spec: result <==> len(path) > 0
+//
+//@ pred isWordByte(b byte) = ('0' <= b && b <= '9') || ('a' <= b && b <= 'z') || ('A' <= b && b <= 'Z')
+//
+//@ fn MatchDigit
+//@   nopanic
+//@   ensures [C02] spec: result <==> (len(path) > 0 && (forall i int :: 0 <= i && i < len(path) ==> '0' <= path[i] && path[i] <= '9'))
+//@   inv 1 [C02] pos: 0 <= iterpos(1)
+//@   inv 1 [C02] digits: forall i int :: 0 <= i && i < iterpos(1) && i < len(path) ==> '0' <= path[i] && path[i] <= '9'
+//
+//@ fn MatchWord
+//@   nopanic
+//@   ensures [C02] spec: result <==> (len(path) > 0 && (forall i int :: 0 <= i && i < len(path) ==> isWordByte(path[i])))
+//@   inv 1 [C02] pos: 0 <= iterpos(1)
+//@   inv 1 [C02] word: forall i int :: 0 <= i && i < iterpos(1) && i < len(path) ==> isWordByte(path[i])
+//
+//@ fn Segment.cleanName
+//@   requires seg != nil && len(seg.Name) > 0
+//@   nopanic
+//@   modifies syntax.Segment.Name: seg
+//@   modifies syntax.Segment.ignoreName: seg
+//@   ensures old(seg.Name)[0] == '-' ==> seg.ignoreName && seg.Name == old(seg.Name)[1:]
+//@   ensures old(seg.Name)[0] != '-' ==> seg.ignoreName == old(seg.ignoreName) && seg.Name == old(seg.Name)
+//
+//@ fn Segment.calcAmbiguousLength
+//@   requires seg != nil && 2 + (seg.ignoreName ? 1 : 0) + ((seg.rule != "") ? len(seg.rule) + 1 : 0) + len(seg.Suffix) <= 32767
+//@   nopanic
+//@   modifies syntax.Segment.ambiguousLength: seg
+//
+//@ fn Segment.AmbiguousLen
+//@   requires seg != nil && len(seg.Value) <= 32767
+//@   nopanic
+//@   ensures [C17] len: result == len(seg.Value)
+//
+//@ fn Segment.IsAmbiguous
+//@   requires seg != nil && s2 != nil
+//@   nopanic
+//@   ensures [C17] sound: result ==> seg.Type == s2.Type && seg.rule == s2.rule && seg.Suffix == s2.Suffix && seg.Endpoint == s2.Endpoint &&
+//@        (seg.Name != s2.Name || seg.ignoreName != s2.ignoreName)
+//
+//@ fn Segment.Similarity
+//@   requires seg != nil && s1 != nil
+//@   nopanic
+//@   ensures result == -1 <==> s1.Value == seg.Value
+//@   ensures (result == -1 || result == -10 || result >= 0) && result <= len(seg.Value) && result <= len(s1.Value)
+//@   ensures s1.Value != seg.Value && s1.Type != seg.Type ==> result == 0
+//
+//@ fn longestPrefix
+//@   nopanic
+//@   ensures [C05] range: (result == -10 || 0 <= result) && result <= len(s1) && result <= len(s2)
+//@   ensures [C02] common: result > 0 ==> s1[:result] == s2[:result]
+//@   inv 1 bounds: 0 <= i && i <= l && l <= len(s1) && l <= len(s2)
+//@   inv 1 idx: (startIndex == -10 || (0 <= startIndex && startIndex < i)) && (endIndex == -10 || (0 <= endIndex && endIndex < i))
+//@   inv 1 [C02] same: forall k int :: 0 <= k && k < i ==> s1[k] == s2[k]
+//
+//@ fn Segment.Valid
+//@   requires segOK(seg)
+//@   ensures [C10] whole: result && kindOK(seg) ==> accepts(seg, pattern)
+//
+//@ fn Interceptors.NewSegment
+//@   requires icOK(i)
+//@   requires [C05] shape: indexOf(val, "{") <= 0 || indexOf(val, "}") == -1
+//@   nopanic
+//@   modifies alloc
+//@   ensures [C05,C01] ok-shape: result1 == nil ==> segShape(result0) && result0.Value == val && fresh(result0)
+//@   ensures [C05,C01] ok-matcher: result1 == nil ==> segMatcher(result0)
+//@   ensures [C05,C01] ok-regexp: result1 == nil ==> segRegexp(result0)
+//@   ensures [C05] err: result1 != nil ==> result0 == nil
+//@   ensures [C02] string: result1 == nil && (indexOf(val, "{") == -1 || indexOf(val, "}") == -1) ==> result0.Type == 0
+//
+//@ fn Segment.Split
+//@   requires segOK(seg) && icOK(i) && 0 <= pos && pos <= len(seg.Value)
+//@   ensures [C05] two: result1 == nil ==> len(result0) == 2 && segOK(result0[0]) && segOK(result0[1]) &&
+//@        result0[0].Value == seg.Value[:pos] && result0[1].Value == seg.Value[pos:]
+//
+//@ fn splitString
+//@   requires len(str) > 0
+//@   nopanic
+//@   modifies alloc
+//@   ensures [C05] nonempty: len(result) >= 1 && (forall k int :: 0 <= k && k < len(result) ==> len(result[k]) > 0)
+//@   ensures [C05] tokens-first: forall k int :: 1 <= k && k < len(result) ==> result[k][0] == '{'
+//@   inv 1 [C05] str: len(str) > 0 && 0 <= end && end < len(str)
+//@   inv 1 [C05] pieces: forall k int :: 0 <= k && k < len(ss) ==> len(ss[k]) > 0
+//@   inv 1 [C05] first: (len(ss) > 0 ==> str[0] == '{') && (forall k int :: 1 <= k && k < len(ss) ==> ss[k][0] == '{')
+//
+//@ fn Interceptors.Split
+//@   requires icOK(i)
+//@   ensures [C05] ok: result1 == nil ==> len(result0) >= 1 && (forall k int :: 0 <= k && k < len(result0) ==> segOK(result0[k]) && len(result0[k].Value) > 0)
+//@   ensures [C05] empty: str == "" ==> result1 != nil
+//
+//@ fn Segment.Match
+//@   requires segOK(seg) && ctx != nil
+//@   modifies types.Context.Path: ctx
+//@   modifies types.Context.params: ctx
+//@   modifies map[string]string: ctx.params
+//@   ensures [C01] fail-unchanged: !result ==> ctx.Path == old(ctx.Path) && ctx.params == old(ctx.params) &&
+//@        dom(ctx.params) == old(dom(ctx.params)) && (forall x string :: ctx.params[x] == old(ctx.params[x]))
+//@   ensures [C01] literal: result && seg.Type == 0 ==> old(ctx.Path) == seg.Value + ctx.Path && ctx.params == old(ctx.params) &&
+//@        dom(ctx.params) == old(dom(ctx.params)) && (forall x string :: ctx.params[x] == old(ctx.params[x]))
+//@   ensures [C01] consumed: result ==> hasSuffix(old(ctx.Path), ctx.Path)
+//@   ensures [C01] param: result && seg.Type != 0 && kindOK(seg) ==> len(old(ctx.Path)) >= len(seg.Suffix) + len(ctx.Path) &&
+//@        old(ctx.Path) == old(ctx.Path)[:len(old(ctx.Path)) - len(seg.Suffix) - len(ctx.Path)] + seg.Suffix + ctx.Path &&
+//@        accepts(seg, old(ctx.Path)[:len(old(ctx.Path)) - len(seg.Suffix) - len(ctx.Path)])
+//@   ensures [C01] capture: result && seg.Type != 0 && !seg.ignoreName && kindOK(seg) ==> dom(ctx.params) == store(old(dom(ctx.params)), seg.Name, true) &&
+//@        ctx.params[seg.Name] == old(ctx.Path)[:len(old(ctx.Path)) - len(seg.Suffix) - len(ctx.Path)] &&
+//@        (forall x string :: x != seg.Name ==> ctx.params[x] == old(ctx.params[x]))
+//@   ensures [C01] no-capture: result && seg.Type != 0 && seg.ignoreName ==> ctx.params == old(ctx.params) &&
+//@        dom(ctx.params) == old(dom(ctx.params)) && (forall x string :: ctx.params[x] == old(ctx.params[x]))
+//@   ensures [C02] shortest: result && (seg.Type == 1 || seg.Type == 3) && !seg.Endpoint ==>
+//@        (forall j int :: 0 <= j && j < len(old(ctx.Path)) - len(seg.Suffix) - len(ctx.Path) && old(ctx.Path)[j:j + len(seg.Suffix)] == seg.Suffix ==> !accepts(seg, old(ctx.Path)[:j]))
+//@   ensures [C02] exhaustive: !result && (seg.Type == 1 || seg.Type == 3) && !seg.Endpoint ==>
+//@        (forall j int :: 0 <= j && j + len(seg.Suffix) <= len(ctx.Path) && ctx.Path[j:j + len(seg.Suffix)] == seg.Suffix ==> !accepts(seg, ctx.Path[:j]))
+//@   ensures [C02] endpoint: (seg.Type == 1 || seg.Type == 3) && seg.Endpoint ==> (result <==> accepts(seg, old(ctx.Path))) && (result ==> ctx.Path == "")
+//@   inv 1 [C02] earlier: forall j int :: 0 <= j && j < index && ctx.Path[j:j + len(seg.Suffix)] == seg.Suffix ==> !accepts(seg, ctx.Path[:j])
+//@   inv 1 [C02] index: 0 <= index && index + len(seg.Suffix) <= len(ctx.Path) && ctx.Path[index:index + len(seg.Suffix)] == seg.Suffix
+//@   inv 1 [C01] unchanged: ctx.Path == old(ctx.Path) && ctx.params == old(ctx.params) && dom(ctx.params) == old(dom(ctx.params)) &&
+//@        (forall x string :: ctx.params[x] == old(ctx.params[x]))
+//
+//@ fn Interceptors.URL
+//@   requires icOK(i) && buf != nil
+//
+//@ fn NewInterceptors
+//@   nopanic
+//@   ensures [C05] ok: icOK(result) && fresh(result)
+//
+//@ fn Interceptors.Add
+//@   requires icOK(i) && f != nil
+//@   maypanic
+//@   ensures [C05] ok: icOK(i)
+//@   inv 1 [C05] bound: -1 <= rangeindex && rangeindex < len(name)
+//@   inv 1 [C05] ok: icOK(i)
